@@ -337,9 +337,16 @@ func (l *Linter) lintSwitchStatement(stmt *ast.SwitchStatement, ctx *context.Con
 	return types.NeverType
 }
 
+// everyScopeIn reports whether every scope of mode is one of the allowed scopes.
+// A subroutine may be annotated with several scopes: a scope-restricted statement
+// is legal there only when all of them allow it.
+func everyScopeIn(mode, allowed int) bool {
+	return mode != 0 && mode&allowed == mode
+}
+
 func (l *Linter) lintRestartStatement(stmt *ast.RestartStatement, ctx *context.Context) types.Type {
 	// restart statement enables in RECV, HIT, FETCH, ERROR and DELIVER scope
-	if ctx.Mode()&(context.RECV|context.HIT|context.FETCH|context.ERROR|context.DELIVER) == 0 {
+	if !everyScopeIn(ctx.Mode(), context.RECV|context.HIT|context.FETCH|context.ERROR|context.DELIVER) {
 		err := &LintError{
 			Severity: ERROR,
 			Token:    stmt.GetMeta().Token,
@@ -467,7 +474,7 @@ func (l *Linter) lintCallStatement(stmt *ast.CallStatement, ctx *context.Context
 
 func (l *Linter) lintErrorStatement(stmt *ast.ErrorStatement, ctx *context.Context) types.Type {
 	// error statement could use in RECV, HIT, MISS, PASS, and FETCH.
-	if ctx.Mode()&(context.RECV|context.HIT|context.MISS|context.PASS|context.FETCH) == 0 {
+	if !everyScopeIn(ctx.Mode(), context.RECV|context.HIT|context.MISS|context.PASS|context.FETCH) {
 		err := &LintError{
 			Severity: ERROR,
 			Token:    stmt.GetMeta().Token,
@@ -634,7 +641,7 @@ func (l *Linter) lintReturnStatement(stmt *ast.ReturnStatement, ctx *context.Con
 
 func (l *Linter) lintSyntheticStatement(stmt *ast.SyntheticStatement, ctx *context.Context) types.Type {
 	// synthetic statement only available in ERROR.
-	if ctx.Mode()&(context.ERROR) == 0 {
+	if !everyScopeIn(ctx.Mode(), context.ERROR) {
 		err := &LintError{
 			Severity: ERROR,
 			Token:    stmt.GetMeta().Token,
@@ -707,7 +714,7 @@ func (l *Linter) lintIdent(exp *ast.Ident, ctx *context.Context) types.Type {
 
 func (l *Linter) lintSyntheticBase64Statement(stmt *ast.SyntheticBase64Statement, ctx *context.Context) types.Type {
 	// synthetic.base64 is similer to synthetic statement, but expression is base64 encoded.
-	if ctx.Mode()&(context.ERROR) == 0 {
+	if !everyScopeIn(ctx.Mode(), context.ERROR) {
 		err := &LintError{
 			Severity: ERROR,
 			Token:    stmt.GetMeta().Token,
